@@ -13,7 +13,7 @@ SPEC = os.path.join(VERIF, "spec")
 HARNESS = os.path.join(VERIF, "harness")
 OUT = os.path.join(VERIF, "out")
 EVID = os.path.join(VERIF, "evidence")
-REPO = "/repo"
+REPO = os.environ.get("VERIF_REPO", "/repo")
 KNOWN = os.path.join(VERIF, "known_findings.json")
 BIN = os.path.join(HARNESS, "target", "debug")
 REPO_BIN = os.path.join(HARNESS, "target-repo", "debug")
